@@ -312,7 +312,8 @@ def run_verus(path, rlimit=None, multiple_errors=40, log_air=True, extra=None, t
             continue
         if d.get("message", "").startswith("aborting due to"):
             continue
-        spans = [(s["line_start"], s["line_end"], s["is_primary"], s.get("label") or "") for s in d.get("spans", [])]
+        spans = [(s["line_start"], s["line_end"], s["is_primary"], s.get("label") or "") for s in d.get("spans", [])
+                 if os.path.basename(s.get("file_name", "")) == os.path.basename(path)]
         r.diagnostics.append({"message": d["message"], "spans": spans, "rendered": d.get("rendered", ""), "code": d.get("code")})
     try:
         j = json.loads(p.stdout)
@@ -360,6 +361,7 @@ class Unit:
         self.rules_fired = {}
         self.default_props = []
         self.trusted_notes = []
+        self.modules = []  # modules holding extracted code (the vacuity run verifies only these)
 
     def raw(self, text):
         self.parts.append(text if text.endswith("\n") else text + "\n")
@@ -377,9 +379,16 @@ class Unit:
                 self.add_clause(Clause(f"{contract.key}.loop{k}.auto{j}", "ensures", a, contract.props, contract.key))
                 self.add_clause(Clause(f"{contract.key}.loop{k}.autoinv{j}", "invariant_except_break", a, contract.props, contract.key))
         mkey = contract.key if mode != "decl" else contract.key + "#decl"
+        # a failed body obligation leaves the whole contract unestablished: it counts for every
+        # property one of the function's clauses serves
+        fprops = list(contract.props)
+        for c in contract.all_clauses():
+            for pp in c.props:
+                if pp not in fprops:
+                    fprops.append(pp)
         self.fn_meta[mkey] = {
             "file": item["file"], "lines": [item["line_start"], item["line_end"]], "mode": mode,
-            "props": contract.props, "loops": item.get("loops", 0), "rules": item.get("rules_fired", {}),
+            "props": fprops, "loops": item.get("loops", 0), "rules": item.get("rules_fired", {}),
         }
         for k, v in (item.get("rules_fired") or {}).items():
             self.rules_fired[k] = self.rules_fired.get(k, 0) + v
@@ -505,7 +514,8 @@ def classify(unit, analysis, vres):
             src = analysis.lines[prim_line - 1].strip()
             src = re.sub(r"\s*// @\S+.*$", "", src)
         if cids:
-            ob = "+".join(cids) + (f"@{fn}" if fn and all(unit.clauses.get(c) and unit.clauses[c].fn != fn for c in cids) else "")
+            owned = any(unit.clauses.get(c) is not None and unit.clauses[c].fn == fn for c in cids)
+            ob = "+".join(cids) + (f"@{fn}" if fn and not owned else "")
         else:
             ob = f"{fn or '?'}:{d['message']}:{src[:80]}"
         fails.append(Failure(ob, fn, d["message"], cids, props, d["rendered"], prim_line))
